@@ -46,6 +46,9 @@ def validate_cases(rng, n):
         out.append(dict(kind="validate", val=str(rng.randint(0, 8)), cons=cs))
     # the same on a point that also says required=false: optional means "may be absent", a value that IS bound is validated
     out += [dict(c, opt=True) for c in out]
+    # ... and however the value reaches the point: written in the tag, computed by a placeholder-free expression, or by an
+    # expression over the placeholder (nothing is looked up for the first two: "bound" must not mean "found in the configuration")
+    out += [dict(c, src=s) for c in out for s in ("lit", "expr", "phexpr")]
     return out
 
 
